@@ -196,7 +196,9 @@ class Parser(BaseParser):
             target=p1,
             annotation=p[3],
             value=p[5] if len(p) >= 6 else None,
-            simple=1,
+            # ``simple`` is 1 only for a bare name target (``x: int``), not
+            # for ``obj.attr: int`` / ``obj[i]: int``
+            simple=1 if isinstance(p1, ast.Name) else 0,
             lineno=lineno,
             col_offset=col,
         )
